@@ -40,14 +40,21 @@ func TestMain(m *testing.M) {
 			"duplicate, swap with a concurrent session, replay from an earlier session) between two honest endpoints over in-memory pipes; "+
 			"C: an active attacker speaking Noise XX through flynn/noise sends substituted payloads; D: forged certificates (libp2p extension "+
 			"mutated) go into PubKeyFromCertChain and through full TLS 1.3 handshakes against a plain crypto/tls attacker; F: a real swarm dials P "+
-			"and the transport answers as Q. A case is NON-TRIVIAL when a mismatch / edit / substitution is actually present (not the honest "+
+			"and the transport answers as Q; F/QUIC: the QUIC transport's own Dial for P over simulated UDP in each of its roles (plain, simultaneous-connect "+
+			"client, simultaneous-connect server = hole punch) while P, another peer Q or nobody lives at the dialled ip:port and P and/or Q connect to the "+
+			"dialer's listener from their listening sockets after a drawn delay; H: session histories inside one verifying process -- 1-3 honest sessions of a "+
+			"verifier with the victim, a bystander or the attacker's own identity (verifier in either role; the peer is the library's transport or a "+
+			"spec-level endpoint with one long-lived certificate / Noise static key), then 1-2 attacks that present the certificate / libp2p extension / Noise "+
+			"payload OBSERVED from those peers again under a certificate key / static key of the attacker's own (whole, re-wrapped, or mixed field by field). "+
+			"A case is NON-TRIVIAL when a mismatch / edit / substitution is actually present (not the honest "+
 			"baseline, and the edit hit and changed a frame); two cases are DISTINCT when (scenario, protocol, key types, role, settings, operator, "+
 			"frame, position) differ.",
 		"cryptographic strength of X25519/ChaChaPoly/SHA-256, the signature schemes, crypto/tls and crypto/x509 is assumed (trusted base)",
 		"TLS record-header bytes of plaintext records and the ChangeCipherSpec compatibility record are unauthenticated by TLS 1.3 itself: edits there are judged by the identity oracle only",
 		"bytes that arrive after a side's last handshake frame (duplicate / unframed extension of that frame) are post-handshake data: judged by the identity oracle plus 'no garbage delivered'",
 		"a stalled handshake (virtual 10 s deadline) counts as a rejection",
-		"QUIC / WebTransport / WebRTC reuse the same two mechanisms and are not exercised here",
+		"QUIC is exercised at transport level for the dial-identity clause only (no wire edits); WebTransport / WebRTC reuse the same two mechanisms and are not exercised here",
+		"TLS 1.3 encrypts certificates and Noise encrypts payloads: the attacker observes a library peer's material by talking to that same transport object under its own identity (a libp2p TLS transport presents one certificate to every peer); a spec-level peer's material is what the harness made it send",
 	)
 	hx.Main(m)
 }
